@@ -349,7 +349,7 @@ def lifecycle_history(world, rnd, nops, disorder=0.0, reconf_cfgs=None, sync=Tru
 
 
 
-def fill_history(world, rnd, nops, reconf=0.0):
+def fill_history(world, rnd, nops, reconf=0.0, topup=False):
     """Fill the machine to capacity and keep it there: many fractional and mixed (exclusive + fraction) requests,
     occasional departures, so that admission decisions are made at nearly full pools."""
     ops, ctrs, pod_of = [], {}, {}
@@ -368,7 +368,8 @@ def fill_history(world, rnd, nops, reconf=0.0):
             continue
         n += 1
         p, c = "p%d" % n, "c%d" % n
-        qos = rnd.choice(["Guaranteed", "Guaranteed", "Burstable"])
+        # (Burstable requests travel as CPU shares and come back a milli-CPU short: only Guaranteed ones add up exactly)
+        qos = "Guaranteed" if topup else rnd.choice(["Guaranteed", "Guaranteed", "Burstable"])
         ann = {}
         if rnd.random() < 0.25:
             ann[ANN["shared"]] = "false"
@@ -379,6 +380,22 @@ def fill_history(world, rnd, nops, reconf=0.0):
         ops.append({"op": "Create", "pod": p, "c": c,
                     "ctr": {"cpureq": cpu, "cpulim": cpu if qos == "Guaranteed" else 0, "memlim": 64, "memreq": 64}})
         ctrs[c], pod_of[c] = "created", p
+    if topup:
+        # top the machine up to EXACTLY its capacity (every request is a multiple of 100m; refused ones do not exist),
+        # then deliver configurations at the full machine, make a hole and deliver again
+        for size, cnt in ((500, 6), (200, 5), (100, 10)):
+            for _ in range(cnt):
+                n += 1
+                p, c = "p%d" % n, "c%d" % n
+                ops.append({"op": "RunPod", "pod": p, "pods": {"ns": "default", "qos": "Guaranteed", "ann": {}}})
+                ops.append({"op": "Create", "pod": p, "c": c, "ctr": {"cpureq": size, "cpulim": size, "memlim": 64, "memreq": 64}, "tag": "topup"})
+                ctrs[c], pod_of[c] = "created", p
+        ops.append({"op": "Reconfigure", "config": world["config"], "tag": "full"})
+        for c in rnd.sample(sorted(ctrs), min(2, len(ctrs))):
+            ops.append({"op": "Stop", "pod": pod_of[c], "c": c})
+            ops.append({"op": "Remove", "pod": pod_of[c], "c": c})
+            del ctrs[c]
+        ops.append({"op": "Reconfigure", "config": world["config"], "tag": "full"})
     for c in list(ctrs):
         ops.append({"op": "Stop", "pod": pod_of[c], "c": c, "tag": "drain"})
         ops.append({"op": "Remove", "pod": pod_of[c], "c": c, "tag": "drain"})
